@@ -1,4 +1,5 @@
 import LolHtml.Lemmas.StrictStream
+import LolHtml.Lemmas.NoAmb
 import LolHtml.Thm.C01
 import LolHtml.Thm.C03_Sim
 import LolHtml.Gen.Syntax
@@ -143,5 +144,76 @@ theorem C03_strict_fails_only_on_guard_end (w : World γ) (ht : EmitsChecked w.t
   · right
     rw [heq]
     exact herr
+
+
+/-- **A non-strict stream never returns a `ParsingAmbiguityError`** when the controller never returns
+one (`CtlNoAmb`: `handle_start_tag`, the aux-info callback, `handle_token` and `handle_end` do not
+fail with `Err.ambiguity`): the guard is the only source of that error in parser, dispatcher and
+transform stream. -/
+theorem C03_nonstrict_no_ambiguity (w : World γ) (hc : CtlNoAmb w.ctl) (ht : EmitsChecked w.tbl = true)
+    (s : Stream γ) (hs : s.parser.x.sim.strict = false) (data : Bytes) (h : Nat) :
+    (s.write w data).2 ≠ .error (.ambiguity h) ∧ (s.end w).2 ≠ .error (.ambiguity h) :=
+  ⟨write_noAmb w hc ht s hs data h, end_noAmb w hc ht s hs h⟩
+
+/-- **C03_strict_fails_only_on_guard, closed form.** With a controller that never returns an ambiguity
+error: if `write` (resp. `end`) of a stream returns `ambiguity h`, the simulator it leaves behind is
+strict and its guard refuses `h` — `Guard.trackStartTag` is where the error comes from —,
+`h ∈ guardTextSwitch`, and the guard is in select (h ≠ script, h not a select-exit tag), in a template in
+select, or in/after frameset (h ≠ noframes). -/
+theorem C03_strict_fails_only_on_guard_ctl (w : World γ) (hc : CtlNoAmb w.ctl)
+    (ht : EmitsChecked w.tbl = true) (hside : Lemmas.Guard.Side w.tags) (s : Stream γ) (data : Bytes) (h : Nat) :
+    ((s.write w data).2 = .error (.ambiguity h) →
+      Refusal w.tags (s.write w data).1.parser.x.sim h ∧ h ∈ w.tags.guardTextSwitch ∧
+      (((s.write w data).1.parser.x.sim.guard = .inSelect ∧ h ≠ w.tags.gScript ∧ h ∉ w.tags.gSelectExit) ∨
+       (∃ d, (s.write w data).1.parser.x.sim.guard = .inTemplateInSelect d) ∨
+       ((s.write w data).1.parser.x.sim.guard = .inOrAfterFrameset ∧ h ≠ w.tags.gNoframes))) ∧
+    ((s.end w).2 = .error (.ambiguity h) →
+      Refusal w.tags (s.end w).1.parser.x.sim h ∧ h ∈ w.tags.guardTextSwitch) := by
+  constructor
+  · intro herr
+    rcases C03_strict_fails_only_on_guard w ht hside s data h herr with hg | hn
+    · exact hg
+    · exact absurd hn (write_noAmb w hc ht (eraseS s) rfl data h)
+  · intro herr
+    rcases C03_strict_fails_only_on_guard_end w ht hside s h herr with hg | hn
+    · exact hg
+    · exact absurd hn (end_noAmb w hc ht (eraseS s) rfl h)
+
+/-- a controller that never fails -/
+def quietCtl : Controller Unit where
+  initialFlags := fun _ => ({} : Flags)
+  startTag := fun g _ _ => (g, .flags ({} : Flags))
+  auxInfo := fun g _ => (g, .ok ({} : Flags))
+  endTag := fun g _ => (g, ({} : Flags))
+  token := fun g _ => (g, ⟨[], none, none⟩)
+  shouldEmit := fun _ => true
+  handleEnd := fun g => (g, [], none)
+  bailOut := fun g _ => (g, [])
+
+/-- non-vacuity of `CtlNoAmb` -/
+example : CtlNoAmb quietCtl where
+  startTag := by intro g n ns e h; cases h
+  auxInfo := by intro g i e h; cases h
+  token := by intro g t e h; cases h
+  handleEnd := by intro g e h; cases h
+
+/-- world over the generated tables with the quiet controller -/
+def genWorld : World Unit := ⟨Gen.Syntax.table, Gen.Tags.cfg, quietCtl⟩
+
+/-- `<select><xmp>` and `<div><textarea>x</textarea>` -/
+def inRefused : Bytes := [60, 115, 101, 108, 101, 99, 116, 62, 60, 120, 109, 112, 62]
+def inAccepted : Bytes :=
+  [60, 100, 105, 118, 62, 60, 116, 101, 120, 116, 97, 114, 101, 97, 62, 120, 60, 47, 116, 101, 120, 116, 97, 114, 101, 97, 62]
+
+/-- Non-vacuity on the generated tables: the strict run over `<select><xmp>` is refused at `xmp`
+(hash 30293) — the hypothesis of `C03_strict_fails_only_on_guard` occurs —, the non-strict run of the
+same input succeeds, and the strict run over `<div><textarea>x</textarea>` succeeds — the hypothesis of
+`C03_strict_eq_nonstrict_stream` occurs. -/
+example :
+    (run genWorld (C01.Rewriter.new genWorld () { strict := true }) [inRefused]).2 =
+      [.err (.ambiguity 30293), .panicUseAfterError] ∧
+    (run genWorld (C01.Rewriter.new genWorld () { strict := false }) [inRefused]).2 = [.ok, .ok] ∧
+    (run genWorld (C01.Rewriter.new genWorld () { strict := true }) [inAccepted]).2 = [.ok, .ok] := by
+  decide +kernel
 
 end LolHtml.Thm.C03
